@@ -475,6 +475,14 @@ impl RequestIdManager {
 		self.id_kind.into_id(self.current_id.next())
 	}
 
+	/// Reserves `len` consecutive request IDs for the entries of a batch and returns the first one.
+	///
+	/// None of the reserved IDs is handed out again, so a request made while the batch
+	/// is in flight never shares an ID with one of its entries.
+	pub fn next_batch_request_ids(&self, len: u64) -> Id<'static> {
+		self.id_kind.into_id(self.current_id.next_n(len.max(1)))
+	}
+
 	/// Get a handle to the `IdKind`.
 	pub fn as_id_kind(&self) -> IdKind {
 		self.id_kind
@@ -509,8 +517,12 @@ impl CurrentId {
 	}
 
 	fn next(&self) -> u64 {
+		self.next_n(1)
+	}
+
+	fn next_n(&self, n: u64) -> u64 {
 		self.0
-			.fetch_add(1, Ordering::Relaxed)
+			.fetch_add(n as usize, Ordering::Relaxed)
 			.try_into()
 			.expect("usize -> u64 infallible, there are no CPUs > 64 bits; qed")
 	}
